@@ -1,0 +1,142 @@
+//go:build verif
+// +build verif
+
+package leaves
+
+import (
+	"sort"
+
+	"gopkg.in/src-d/hercules.v10/internal/burndown"
+)
+
+// Read-only accessors for the C08 (fork isolation) harness.  They never modify the analysis.
+
+// VerifC08FileNames returns the sorted keys of analyser.files.
+func (analyser *BurndownAnalysis) VerifC08FileNames() []string {
+	names := make([]string, 0, len(analyser.files))
+	for k := range analyser.files {
+		names = append(names, k)
+	}
+	sort.Strings(names)
+	return names
+}
+
+// VerifC08Flatten returns the per-line values of one tracked file (nil, false if absent).
+func (analyser *BurndownAnalysis) VerifC08Flatten(name string) ([]int, bool) {
+	f, ok := analyser.files[name]
+	if !ok || f == nil {
+		return nil, false
+	}
+	return f.VerifFlatten(), true
+}
+
+// VerifC08File returns the tracked file object itself (for identity comparisons only).
+func (analyser *BurndownAnalysis) VerifC08File(name string) *burndown.File {
+	return analyser.files[name]
+}
+
+// VerifC08Used returns fileAllocator.Used().
+func (analyser *BurndownAnalysis) VerifC08Used() int {
+	return analyser.fileAllocator.Used()
+}
+
+// VerifC08Scalars returns the branch-local scalars tick, previousTick, mergedAuthor.
+func (analyser *BurndownAnalysis) VerifC08Scalars() (tick, previousTick, mergedAuthor int) {
+	return analyser.tick, analyser.previousTick, analyser.mergedAuthor
+}
+
+// VerifC08MergedFiles returns a copy of mergedFiles.
+func (analyser *BurndownAnalysis) VerifC08MergedFiles() map[string]bool {
+	r := map[string]bool{}
+	for k, v := range analyser.mergedFiles {
+		r[k] = v
+	}
+	return r
+}
+
+// VerifC08Cell is one cell of a sparse accumulator: Key -> Delta.
+type VerifC08Cell struct {
+	Key   []int
+	Delta int64
+}
+
+func verifC08Sort(cells []VerifC08Cell) []VerifC08Cell {
+	sort.Slice(cells, func(i, j int) bool {
+		a, b := cells[i].Key, cells[j].Key
+		for k := range a {
+			if a[k] != b[k] {
+				return a[k] < b[k]
+			}
+		}
+		return false
+	})
+	return cells
+}
+
+// VerifC08GlobalHistory returns globalHistory as sorted (curTick, prevTick) -> delta cells.
+func (analyser *BurndownAnalysis) VerifC08GlobalHistory() []VerifC08Cell {
+	var cells []VerifC08Cell
+	for cur, row := range analyser.globalHistory {
+		for prev, d := range row {
+			cells = append(cells, VerifC08Cell{Key: []int{cur, prev}, Delta: d})
+		}
+	}
+	return verifC08Sort(cells)
+}
+
+// VerifC08PeopleHistories returns peopleHistories as sorted (author, curTick, prevTick) -> delta cells.
+func (analyser *BurndownAnalysis) VerifC08PeopleHistories() []VerifC08Cell {
+	var cells []VerifC08Cell
+	for a, h := range analyser.peopleHistories {
+		for cur, row := range h {
+			for prev, d := range row {
+				cells = append(cells, VerifC08Cell{Key: []int{a, cur, prev}, Delta: d})
+			}
+		}
+	}
+	return verifC08Sort(cells)
+}
+
+// VerifC08Matrix returns matrix as sorted (oldAuthor, newAuthor) -> delta cells.
+func (analyser *BurndownAnalysis) VerifC08Matrix() []VerifC08Cell {
+	var cells []VerifC08Cell
+	for a, row := range analyser.matrix {
+		for b, d := range row {
+			cells = append(cells, VerifC08Cell{Key: []int{a, b}, Delta: d})
+		}
+	}
+	return verifC08Sort(cells)
+}
+
+// VerifC08Deletions returns the sorted keys of deletions whose value is true.
+func (analyser *BurndownAnalysis) VerifC08Deletions() []string {
+	var names []string
+	for k, v := range analyser.deletions {
+		if v {
+			names = append(names, k)
+		}
+	}
+	sort.Strings(names)
+	return names
+}
+
+// VerifC08Renames returns a copy of renames.
+func (analyser *BurndownAnalysis) VerifC08Renames() map[string]string {
+	r := map[string]string{}
+	for k, v := range analyser.renames {
+		r[k] = v
+	}
+	return r
+}
+
+// VerifC08FileHistoryNames returns the sorted keys of fileHistories whose history is not nil.
+func (analyser *BurndownAnalysis) VerifC08FileHistoryNames() []string {
+	var names []string
+	for k, v := range analyser.fileHistories {
+		if v != nil {
+			names = append(names, k)
+		}
+	}
+	sort.Strings(names)
+	return names
+}
